@@ -84,6 +84,13 @@ Section Channels.
     k = length inss /\ all_len (str s') (length inss).
   Proof. exact (run_length_all_done State stepf input_widths guard asserts). Qed.
 
+  (* the trace is keyed by wire NAME: a wires_to_track list that names a wire several times gives one
+     list per wire, and after n returned calls each listed wire has exactly n entries under its name *)
+  Theorem C15_trace_length_by_name : forall inss ws st v0 s' k w,
+    run (mkSim st v0 (new_trace ws)) inss = (s', k, Done) -> In w ws ->
+    exists l, lookup (str s') w = Some l /\ length l = length inss.
+  Proof. exact (run_length_by_name State stepf input_widths guard asserts). Qed.
+
   (* ---- rtl_assert: with legal inputs, stepping raises the exception of assertion a after
      exactly t calls returned, iff cycle t is the first in which some assertion wire is 0
      (a being the first registered assertion that is 0 in that cycle); otherwise every call returns *)
@@ -153,6 +160,15 @@ Section Channels.
       SmFinished (fst r) (snd r).
   Proof. exact (step_multiple_stop State stepf input_widths guard asserts). Qed.
 
+  (* without expected outputs: exactly the single steps, up to and including the one that raises
+     (the k legal cycles before a refused input ARE simulated and traced) *)
+  Theorem C15_step_multiple_no_expected : forall provided nsteps s n s' k o,
+    sm_nsteps provided (@nil (name * list (option Z))) nsteps = inr n ->
+    run s (map (inputs_at provided) (seq 0 (Z.to_nat n))) = (s', k, o) ->
+    step_multiple provided [] nsteps false s =
+      match o with Done => SmFinished s' [] | _ => SmRaised s' k o end.
+  Proof. exact (step_multiple_no_expected State stepf input_widths guard asserts). Qed.
+
   Theorem C15_step_multiple_prologue_error : forall provided expected nsteps stop s e,
     sm_nsteps provided expected nsteps = inl e ->
     step_multiple provided expected nsteps stop s = SmError e.
@@ -164,6 +180,7 @@ Print Assumptions C15_rejected_step_changes_nothing.
 Print Assumptions C15_step_rejected_iff.
 Print Assumptions C15_trace_length.
 Print Assumptions C15_trace_length_all_done.
+Print Assumptions C15_trace_length_by_name.
 Print Assumptions C15_rtl_assert_first_failure.
 Print Assumptions C15_first_assert_failure_is_first_zero.
 Print Assumptions C15_failing_assert_none.
@@ -174,6 +191,12 @@ Print Assumptions C15_step_multiple_exact_mismatches.
 Print Assumptions C15_step_multiple_raises.
 Print Assumptions C15_step_multiple_stop.
 Print Assumptions C15_step_multiple_prologue_error.
+Print Assumptions C15_step_multiple_no_expected.
+
+Theorem C15_trace_keys_unique : forall ws,
+  NoDup (trace_names (new_trace ws)) /\ (forall w, In w (trace_names (new_trace ws)) <-> In w ws).
+Proof. exact new_trace_names. Qed.
+Print Assumptions C15_trace_keys_unique.
 
 (* the written report lists exactly the failed entries, ordered by (step, natural name key) *)
 Theorem C15_report_is_sorted_permutation : forall failed,
@@ -276,6 +299,15 @@ Example C15_example_trace :
   end.
 Proof. vm_compute. repeat split; reflexivity. Qed.
 
+(* wires_to_track = [o10; a; o10; a; o10]: two keys, one entry per cycle each *)
+Example C15_example_repeated_wires :
+  match run Z ex_stepf ex_widths guard_simulation []
+            (mkSim 0 (fun _ => 0) (new_trace [nm "o10"; nm "a"; nm "o10"; nm "a"; nm "o10"]))
+            (map (fun v => [(nm "a", v)]) [3; 7; 15]) with
+  | (s, k, o) => k = 3%nat /\ str s = [(nm "o10", [3; 8; 17]); (nm "a", [3; 7; 15])]
+  end.
+Proof. vm_compute. repeat split; reflexivity. Qed.
+
 (* a refused value (16 does not fit 4 bits) in the third call: two cycles traced, nothing else changes *)
 Example C15_example_rejected :
   match ex_run [] [3; 7; 16; 1] with
@@ -308,6 +340,14 @@ Example C15_example_step_multiple :
     2          c        5        2
     2        o10        9       17
 "%string
+  | _ => False
+  end.
+Proof. vm_compute. repeat split; reflexivity. Qed.
+
+(* no expected outputs, 16 does not fit at step 2: the two legal cycles are traced, then the step raises *)
+Example C15_example_step_multiple_illegal_step :
+  match step_multiple Z ex_stepf ex_widths guard_simulation [] [(nm "a", [3; 7; 16; 1])] [] None false ex_sim with
+  | SmRaised s i o => i = 2%nat /\ o = Rejected /\ trace_len (str s) = 2
   | _ => False
   end.
 Proof. vm_compute. repeat split; reflexivity. Qed.
